@@ -38,6 +38,7 @@ type c10Scenario struct {
 	Targets []int     `json:"targets"` // for unsubOther
 	NDerive int       `json:"derived_subs"`
 	Map2    bool      `json:"second_level_map"`
+	CloseH  bool      `json:"handler_closed_right_after_the_last_publish,omitempty"`
 	Threads [][]c10Op `json:"threads"`
 
 	h         *Hist
@@ -110,6 +111,9 @@ func genC10(t *simrt.Tape, tier string) Scenario {
 		sc.Map2 = t.Bool(1, 3)
 	}
 	if sc.Handler {
+		// the user closes the handler as soon as the publishing threads are done: what Publish handed over before
+		// that is still delivered (a Handler runs what was posted before Close)
+		sc.CloseH = t.Bool(1, 3)
 		// a callback running on the handler that publishes again would post to its own (unbuffered)
 		// handler: a self-deadlock by design, not a subject of the property
 		for i, a := range sc.Actions {
@@ -188,6 +192,9 @@ func (sc *c10Scenario) Run(s *simrt.Sim) {
 	sc.hTID = -1
 	if sc.Handler {
 		hd = fpgo.Handler.New()
+		if sc.CloseH && sc.NSubs%2 == 1 {
+			hd = fpgo.Handler.NewByCh(make(chan func(), 8)) // a mailbox that can hold a backlog
+		}
 		if sc.NSubs%4 == 0 {
 			// the library's default Handler, re-created inside this simulation (see C12)
 			fpgo.SimReinit()
@@ -339,6 +346,10 @@ func (sc *c10Scenario) Run(s *simrt.Sim) {
 			return
 		}
 	}
+	if hd != nil && sc.CloseH {
+		h.Do("main", "Handler.Close", nil, func() (interface{}, error) { hd.Close(); return nil, nil })
+		sc.probes["handler-closed-after-last-publish"]++
+	}
 	s.SetFair(true)
 	// the method-style constructor (interface{} element type) gives an equally good publisher
 	{
@@ -356,7 +367,9 @@ func (sc *c10Scenario) Run(s *simrt.Sim) {
 			sc.extra = append(sc.extra, Violation{Clause: "api-smoke", Fingerprint: "Publisher.New", Detail: fmt.Sprintf("Publisher.New(): two subscriptions, Publish(1), Unsubscribe(a), Publish(x) delivered %v, want [a1 b1 bx]", got)})
 		}
 	}
-	if hd != nil {
+	if hd != nil && sc.CloseH {
+		s.Sleep(time.Second)
+	} else if hd != nil {
 		// drain the handler: everything posted before the sentinel has run when it runs
 		drained := false
 		h.Do("main", "PostSentinel", nil, func() (interface{}, error) { hd.Post(func() { drained = true }); return nil, nil })
